@@ -155,8 +155,9 @@ pub fn statement_for(q: &J, jpath: &str, tdef: &str) -> String {
 
 pub fn table_defs(tdef: &str) -> String {
     let (kmod, vmod) = match tdef { "knn" => (" NOT NULL", ""), "vdef" => ("", " DEFAULT 7"), "bothnn" => (" NOT NULL", " NOT NULL"), _ => ("", "") };
-    format!("CREATE TABLE t(line = 'k=([a-z]+)? v=(-?[0-9]+)?', line[1] => k TEXT{}, line[2] => v INT{});\n\
-             CREATE TABLE u(jl = 'k=([a-z]+)? v=(-?[0-9]+)?', jl[1] => k TEXT, jl[2] => w {});", kmod, vmod, if tdef == "numjoin" { "REAL" } else { "INT" })
+    let (a, z) = if tdef == "anch" { ("^", "$") } else { ("", "") };
+    format!("CREATE TABLE t(line = '{}k=([a-z]+)? v=(-?[0-9]+)?{}', line[1] => k TEXT{}, line[2] => v INT{});\n\
+             CREATE TABLE u(jl = 'k=([a-z]+)? v=(-?[0-9]+)?', jl[1] => k TEXT, jl[2] => w {});", a, z, kmod, vmod, if tdef == "numjoin" { "REAL" } else { "INT" })
 }
 
 pub fn line_text(l: &J) -> String {
@@ -166,6 +167,7 @@ pub fn line_text(l: &J) -> String {
         "garbage" => "###".into(),
         "empty" => String::new(),
         "near" => "k=a v1".into(),
+        "longpre" => format!("{}k=a v=1", "#".repeat(l["n"].as_u64().unwrap() as usize)),
         o => panic!("line kind {}", o)
     }
 }
